@@ -373,6 +373,10 @@ pub trait Caps: H {
     fn try_reserve_items(&mut self, _items: &[Self::Owned]) -> bool {
         false
     }
+    /// `reserve_items` with the items presented in input form `form` (catalogue.reserve_forms; 0 = by reference)
+    fn try_reserve_items_form(&mut self, items: &[Self::Owned], _form: u32) -> bool {
+        self.try_reserve_items(items)
+    }
     fn try_serde(&self) -> Option<Self> {
         None
     }
@@ -399,7 +403,7 @@ pub enum Op {
     CloneFrom(usize, usize),
     PushItem(usize, usize, usize, bool),
     CloneOnto(usize, usize, U),
-    ReserveItems(usize, Vec<U>),
+    ReserveItems(usize, Vec<U>, u32),
     ReserveRegions(usize, Vec<usize>),
     Heap(usize),
     Serde(usize),
@@ -458,7 +462,11 @@ pub fn parse_op(s: &str) -> Result<Op, String> {
         ["pushitem", d, k, j, o] => Op::PushItem(n(d)?, n(k)?, n(j)?, *o == "1"),
         ["cloneonto", k, j, v] => Op::CloneOnto(n(k)?, n(j)?, U::parse(v)?),
         ["resitems", k, v] => match U::parse(v)? {
-            U::L(l) => Op::ReserveItems(n(k)?, l),
+            U::L(l) => Op::ReserveItems(n(k)?, l, 0),
+            _ => return Err("resitems".into()),
+        },
+        ["resitems", k, v, f] => match U::parse(v)? {
+            U::L(l) => Op::ReserveItems(n(k)?, l, n(f)? as u32),
             _ => return Err("resitems".into()),
         },
         ["resregs", k, ks] => Op::ReserveRegions(n(k)?, ints(ks)?),
@@ -669,7 +677,7 @@ pub fn run_entry<R: Caps>(ops: &[Op]) -> Vec<Vec<Obs>> {
                     vec![Obs::Ill]
                 }
             },
-            Op::ReserveItems(k, us) => {
+            Op::ReserveItems(k, us, form) => {
                 let vs: Option<Vec<R::Owned>> = us.iter().map(R::of_u).collect();
                 match vs {
                     None => {
@@ -678,7 +686,7 @@ pub fn run_entry<R: Caps>(ops: &[Op]) -> Vec<Vec<Obs>> {
                     }
                     Some(vs) => {
                         let s = &mut slots[*k];
-                        match caught(|| s.r.try_reserve_items(&vs)) {
+                        match caught(|| s.r.try_reserve_items_form(&vs, *form)) {
                             Some(true) => vec![Obs::None],
                             Some(false) => vec![Obs::Unsupported],
                             None => {
